@@ -1,8 +1,8 @@
-from . import streams_geom
+from . import streams_geom, cli
 
 ID = 'C11'
 PROPS_MODULE = ['Refine.Props.C11']
-STREAMS = [streams_geom.INTERP, streams_geom.BARY]
+STREAMS = [streams_geom.INTERP, streams_geom.BARY, cli.INTERP, cli.INTERP_MPI]
 EXPLANATION = (
     'Proved (Lean 4, exact real arithmetic, over the executable model bit-compared with the C): ref_node_clip_bary2/3/4 '
     'return a point of the simplex on the success branch (w_i >= 0, sum 1) and a unit vector on the REF_DIV_ZERO branch; '
